@@ -139,6 +139,26 @@ impl<'a> ZoneHydrator<'a> {
                     "Hydrating wildcard zones with per-UID loaders"
                 );
             }
+            // Zones without UID metadata (queries for one event type) still need their values when
+            // other zones of the same query carry a UID, e.g. the placeholder zones of a segment
+            // whose index files do not exist (yet): they belong to the plan's event type.
+            let without_uid: Vec<usize> = candidate_zones
+                .iter()
+                .enumerate()
+                .filter(|(_, z)| z.uid().is_none())
+                .map(|(idx, _)| idx)
+                .collect();
+            if !without_uid.is_empty() {
+                if let Some(uid) = self.plan.event_type_uid().await {
+                    let loader = ZoneValueLoader::new(self.plan.segment_base_dir.clone(), uid)
+                        .with_caches(self.caches);
+                    for idx in without_uid {
+                        if let Some(zone) = candidate_zones.get_mut(idx) {
+                            loader.load_zone_values(std::slice::from_mut(zone), &columns);
+                        }
+                    }
+                }
+            }
             for (uid, indices) in zones_by_uid {
                 let zone_count = indices.len();
                 let loader = ZoneValueLoader::new(self.plan.segment_base_dir.clone(), uid.clone())
